@@ -467,6 +467,16 @@ func (e *c03Env) targets() []*c03Target {
 }
 
 func (t *c03Target) key(k c03KeySel) []byte {
+	// Questions stay inside the key space of a contract (at most 64 bytes): longer keys are refused as invalid
+	// input by the historic handlers and simply absent for the current ones, which is not what this check is about.
+	if b := t.key0(k); len(b) <= 64 {
+		return b
+	} else {
+		return b[:64]
+	}
+}
+
+func (t *c03Target) key0(k c03KeySel) []byte {
 	var b []byte
 	if len(t.listing) > 0 {
 		b = bytes.Clone(t.listing[c03Mod(k.Sel, len(t.listing))].Key)
